@@ -274,7 +274,7 @@ func c10Literals(c *Ctx) {
 	}
 	progs := []struct{ src, wrapL, wrapR string }{
 		{".", "", ""}, {".[0]", "[", "]"}, {".a", `{"a":`, "}"}, {"[.[]]|.[0]", "[", "]"}, {". as $x|$x", "", ""},
-		{"if true then . else 0 end", "", ""}, {"[.]|first", "", ""}, {"{a:.}|.a", "", ""}, {"(., 1)|select(. != 1)", "", ""}}
+		{"if true then . else 0 end", "", ""}, {"[.]|first", "", ""}, {"{a:.}|.a", "", ""}, {"(., \"x\")|select(. != \"x\")", "", ""}}
 	codes := make([]*gojq.Code, len(progs))
 	for i, p := range progs {
 		codes[i] = c10Compile(p.src)
@@ -307,6 +307,10 @@ func c10Literals(c *Ctx) {
 				continue
 			}
 			out := c10Run1(codes[pi], in)
+			if e, ok := out.(error); ok {
+				c.Violation("literal %s through `%s` gave error %v", lit, p.src, e)
+				continue
+			}
 			bs, err := gojq.Marshal(out)
 			c.Count("literal")
 			c.Stats["literal_evals"] = i*len(progs) + pi + 1
@@ -338,6 +342,10 @@ func c10Floats(c *Ctx) {
 			f = (float64(r.Intn(2000000)) - 1000000) * math.Pow(10, float64(r.Intn(60)-30))
 		}
 		out := c10Run1(id, f)
+		if e, ok := out.(error); ok {
+			c.Violation("float bits %d + 0 gave error %v", math.Float64bits(f), e)
+			continue
+		}
 		bs, err := gojq.Marshal(out)
 		c.Count("float")
 		if err != nil {
